@@ -37,6 +37,7 @@ BAD = {
     "extra-attr-store": "hidden per-element state stored during stepping",
     "net-attr-store": "hidden state stored on the network during stepping",
     "state-dict-aliased": "a caller-supplied dictionary is kept as element state",
+    "global-state-store": "state kept in a module-level / class-level / default-argument container",
     "memoised": "memoised function in the dynamics",
     "var-not-fresh": "variables reused across initialisations",
     "class-attr-store": "state stored on a class (shared by all instances) during stepping",
@@ -110,6 +111,14 @@ def run(rep: Report) -> None:
                     found = True
                     rep.refuted("no-side-effects", lab, e[1], f"{BAD[e[0]]}: {e[2]}",
                                 key=f"{e[0]}|{_fn(e[1])}")
+                    break
+                if e[0] == "current-engine" and ck.cfg.engine_arg == "explicit":
+                    # the result of a step with an explicit engine must not depend on the process-wide
+                    # engine selection (hidden global state)
+                    found = True
+                    rep.refuted("no-side-effects", lab, e[1], "the process-wide engine selection is read although an "
+                                "engine was passed to the step: the same call gives other results (or fails) after "
+                                "another engine was selected", key=f"global-engine|{_fn(e[1])}")
                     break
             if found:
                 break
